@@ -49,6 +49,7 @@ type Contract struct {
 	Abstract   bool // abstracted mode: unknown constructs havoc
 	NoOverflow bool // int mode: do not generate overflow obligations (listed as assumption)
 	NoPanicOff bool // do not generate safety obligations
+	KeepSafe   map[string]bool // nosafety except KIND...: safety obligations of these kinds (slice, index, nil, ...) are still generated
 	NoPre      bool // callee preconditions are not obligations here; callee postconditions are assumed only under them
 	Unroll     map[int]int
 	Bounded    string
@@ -415,6 +416,15 @@ func ParseContractFile(path, pkg string) (*ContractFile, error) {
 				cur.NoOverflow = true
 			case "nosafety":
 				cur.NoPanicOff = true
+				// `nosafety except slice index`: keep those kinds as obligations
+				if f := strings.Fields(rest); len(f) > 1 && f[0] == "except" {
+					if cur.KeepSafe == nil {
+						cur.KeepSafe = map[string]bool{}
+					}
+					for _, kname := range f[1:] {
+						cur.KeepSafe[kname] = true
+					}
+				}
 			case "bounded":
 				cur.Bounded = "yes"
 			case "nopre":
